@@ -861,7 +861,7 @@ def r19_13_shortcut_needs_plain_destination(ck, P, rid='C19-R13'):
     """T-GRD: an exported drawing entry point that has the general route (it composites into its destination parameter) and, on another
     branch, a shortcut that writes the destination's storage without compositing, takes the shortcut only for a destination whose pixels
     are all in that storage: no alpha map; and, where the shortcut is handed the raw bits pointer, no read/write accessors either."""
-    R = ck.rule(rid, 'in every exported function that composites into an image parameter D (pixman_image_composite32 / pixman_image_composite) and on another branch writes D directly (hands D->bits.bits to pixman_fill / pixman_blt, or D to a function that stores into image storage without compositing), the direct branch is guarded by D->common.alpha_map == NULL, and a raw-pointer shortcut also by D->bits.read_func == NULL and D->bits.write_func == NULL: an alpha map holds the destination\'s alpha channel and accessors are the only way its pixels may be touched', floor=2)
+    R = ck.rule(rid, 'in every exported function that composites into an image parameter D (pixman_image_composite32 / pixman_image_composite) and on another branch writes D directly (hands D->bits.bits to pixman_fill / pixman_blt, or D to a function that stores into image storage without compositing), the direct branch is guarded by D->common.alpha_map == NULL and D->bits.dither == PIXMAN_DITHER_NONE, and a raw-pointer shortcut also by D->bits.read_func == NULL and D->bits.write_func == NULL: an alpha map holds the destination\'s alpha channel, dithering happens only in the wide write-back, and accessors are the only way its pixels may be touched', floor=2)
     GEN = ('pixman_image_composite32', 'pixman_image_composite')
     RAW = ('pixman_fill', 'pixman_blt', '_pixman_implementation_fill', '_pixman_implementation_blt')
     # W: functions that store into an image's pixel storage themselves
@@ -950,12 +950,12 @@ def r19_13_shortcut_needs_plain_destination(ck, P, rid='C19-R13'):
                 if not raw and not whole:
                     continue
                 n += 1; ck.saw(f)
-                need = {'image_common.alpha_map'} | ({'bits_image.read_func', 'bits_image.write_func'} if raw else set())
+                need = {'image_common.alpha_map', 'bits_image.dither'} | ({'bits_image.read_func', 'bits_image.write_func'} if raw else set())
                 have = null_facts(f, c.bb.id, root)
                 where = '%s: %s at %s' % (f.name, c.callee, c.loc())
                 miss = sorted(need - have)
                 if miss:
-                    ck.violation(R, f.name, 'direct write through %s' % c.callee, '%s has the general route (it composites into %s) but on this branch hands %s to %s, which writes the image\'s own storage, without having established that %s is NULL: %s' % (f.name, f.params[root[1]][0], 'the raw bits pointer' if raw else 'the image', c.callee, ' / '.join(miss), 'an image with an alpha map keeps its alpha channel in the map, so the two routes give different pictures' if miss == ['image_common.alpha_map'] else 'an image with accessors may be touched only through them, and one with an alpha map keeps its alpha channel in the map'), c.loc())
+                    ck.violation(R, f.name, 'direct write through %s' % c.callee, '%s has the general route (it composites into %s) but on this branch hands %s to %s, which writes the image\'s own storage, without having established that %s is NULL: %s' % (f.name, f.params[root[1]][0], 'the raw bits pointer' if raw else 'the image', c.callee, ' / '.join(miss), 'an image with an alpha map keeps its alpha channel in the map, so the two routes give different pictures' if miss == ['image_common.alpha_map'] else 'a dithered image gets its noise only from the wide write-back of the compositing route' if miss == ['bits_image.dither'] else 'an image with accessors may be touched only through them, one with an alpha map keeps its alpha channel in the map, and a dithered one is dithered only by the compositing route'), c.loc())
                 else:
                     ck.ok(R, where, 'guarded by NULL tests of %s' % ', '.join(sorted(need)))
                 break
@@ -1009,3 +1009,67 @@ def r_same_storage_needs_same_stride(ck, P, rid='C02-R22'):
                     ck.violation(R, f.name, 'same-buffer test at %s' % x.loc(), '%s treats two images as the same pixels because their bits pointers are equal (%s) and acts on it at %s, but no test on that path establishes that their rowstrides are equal: with different strides only the first row coincides, and the code that takes both colour and alpha from one image reads the alpha of the wrong pixels for every other row' % (f.name, x.loc(), b.term.loc()), x.loc())
     if n == 0:
         raise AnalysisBroken('%s: no comparison of two images\' bits pointers found (pixbuf detection)' % rid)
+
+
+def r_wide_only_properties_reach_the_flags(ck, P, rid='C02-R24'):
+    """T-AGR between the general path and the flag computation: an image field other than the flags word that makes general_composite_rect
+    leave the narrow pipeline (bits.dither: dithering happens in the wide write-back) must be visible to the fast-path selection, which
+    looks at flags only - the flag computation clears a flag every destination fast path requires when that field is set."""
+    from .. import consts
+    R = ck.rule(rid, 'every field of a bits image, other than the flags word, that general_composite_rect tests before it chooses the narrow pipeline (bits.dither) is also tested by the function that computes image_common.flags, and on the path where it is set a flag of FAST_PATH_STD_DEST_FLAGS is cleared: otherwise every whole-operation fast path is still selected for such a destination and draws without what only the wide pipeline does', floor=1)
+    C = consts.fast_path_flags()
+    STD = C['FAST_PATH_STD_DEST_FLAGS']
+    IT = P.enum('iter_flags_t')
+    g = P.fn('general_composite_rect', required=False)
+    if g is None:
+        raise AnalysisBroken('%s: general_composite_rect not found' % rid)
+    fields = set()
+    for x in g.insts():
+        if x.op != 'phi':
+            continue
+        cs = {int(a[1]) for a in x.a if a[0] == 'c'}
+        if not ({IT['ITER_NARROW'], IT['ITER_WIDE']} <= cs):
+            continue
+        for a, bb in zip(x.a, x.d['bb']):
+            if a[0] == 'c' and int(a[1]) == IT['ITER_NARROW']:
+                for t, s_ in g.guard_edges(bb):
+                    if t.a:
+                        fields |= {q[1] for q in g.atoms(t.a[0]) if q[0] == 'field' and q[1].startswith('bits_image.') and q[1] != 'bits_image.common'}
+    fields -= {'bits_image.type', 'bits_image.format'}
+    if not fields:
+        raise AnalysisBroken('%s: no non-flag field tested by general_composite_rect for the choice of the narrow pipeline' % rid)
+    f = None
+    for h in P.functions():
+        if any(x.op == 'store' and h.last_field(h.path(x.a[1])) == 'image_common.flags' for x in h.insts()) and any(x.op == 'store' and h.last_field(h.path(x.a[1])) == 'image_common.extended_format_code' for x in h.insts()):
+            f = h
+    if f is None:
+        raise AnalysisBroken('%s: the function that computes image_common.flags was not found' % rid)
+    ck.saw(f); ck.saw(g)
+    for fld in sorted(fields):
+        ok = False
+        for x in f.insts():
+            if x.op != 'and' or not any(a[0] == 'c' for a in x.a):
+                continue
+            mask = [int(a[1]) for a in x.a if a[0] == 'c'][0] & 0xffffffff
+            cleared = ~mask & 0xffffffff
+            if not (cleared & STD):
+                continue
+            for t, s_ in f.guard_edges(x.bb.id):
+                if not t.a:
+                    continue
+                c, p, ops = f.cond(t.a[0])
+                if c is None:
+                    continue
+                zs = [f.v(f.strip_casts(o)) for o in ops]
+                if not any(z is not None and z.op == 'load' and f.last_field(f.path(z.a[0])) == fld for z in zs):
+                    continue
+                if p in ('eq', 'ne') and any(o[0] == 'c' and int(o[1]) == 0 for o in ops):
+                    if (p == 'ne') == (t.d['succ'][0] == s_):
+                        ok = True
+                elif p in ('is', 'not') and (p == 'is') == (t.d['succ'][0] == s_):
+                    ok = True
+        where = '%s: %s (tested by general_composite_rect)' % (f.name, fld)
+        if ok:
+            ck.ok(R, where, 'a FAST_PATH_STD_DEST_FLAGS bit is cleared when it is set')
+        else:
+            ck.violation(R, f.name, 'flags ignore %s' % fld, 'general_composite_rect leaves the narrow pipeline when %s is set, but %s clears no flag of FAST_PATH_STD_DEST_FLAGS on a path guarded by that field: the fast-path tables look at the flags only, so a whole-operation fast path is chosen for such a destination and the result differs from the general path (a dithered destination is drawn without dithering)' % (fld, f.name), '%s:%d' % (f.unit.name, f.line))
